@@ -10,7 +10,8 @@ q = ["iso",  e, i, j]                  GraphMatcherEngine.isomorphic(g_i, g_j)
                                        "gm" = graph_morphism.subgraph_isomorphism
   | ["giso", i, j]                     graph_morphism.graph_isomorphism(g_i, g_j, use_defaults=True)
 Observable: one entry per query in history order (verdict; for "maps": [count, mapping set or [] when the set is not
-determined by the specification: max_mappings set, or the single-call isomorphism shortcut]).
+determined by the specification: max_mappings set, or the single-call isomorphism shortcut]), then the content of the WL cache for
+the graph objects of the case after the history: {(graph index, node_attrs) -> colour histogram}.
 """
 import itertools
 
@@ -128,10 +129,28 @@ def _obs(q, r, gs, specs):
     return [len(r), S([S([[a, b] for a, b in m.items()]) for m in r]) if det else S([])]
 
 
+def _cache_obs(case, gs):
+    """Content of the class-level WL cache for the graph objects of this case: {(graph index, node_attrs): histogram}, values
+    interned exactly as coq_case does (neighbour labels as a multiset: Python sorts raw values, the model sorts codes)."""
+    from synkit.Graph.Matcher.graph_matcher import GraphMatcherEngine
+    codes, dyn = _intern(case)
+
+    def lab(attrs, tup):
+        return [[] if v is None else [v if a == "hcount" else codes(v)] for a, v in zip(attrs, tup)]
+    out = []
+    for i, g in enumerate(gs):
+        per = GraphMatcherEngine._wl_cache.get(g)
+        for attrs, h in (per or {}).items():
+            ent = [[[lab(attrs, b), S([lab(attrs, nb) for nb in neigh])], cnt] for (b, neigh), cnt in h.items()]
+            out.append([i, [_key(k, dyn) for k in attrs], S(ent)])
+    return S(out)
+
+
 def impl(case):
     gs = [G.to_nx(g) for g in case["graphs"]]
     engs = [_engine(s) for s in case["engines"]]
-    return [_obs(q, _run_query(q, gs, engs, case["engines"]), gs, case["engines"]) for q in case["queries"]]
+    ans = [_obs(q, _run_query(q, gs, engs, case["engines"]), gs, case["engines"]) for q in case["queries"]]
+    return ans + [_cache_obs(case, gs)]
 
 
 # ------------------------------------------------------------------ model encoder
@@ -177,6 +196,17 @@ def _attrs(a, codes, dyn):
         else:
             out.append("(%s, %s)" % (cN(_key(k, dyn)), cN(codes(v))))
     return clist(out)
+
+
+def _intern(case):
+    """The interning tables after the graphs of the case have been encoded (same traversal as coq_case)."""
+    codes, dyn = _Codes(), {}
+    for g in case["graphs"]:
+        try:
+            G.coq_lgraph(g, lambda n, a: _attrs(a, codes, dyn), lambda u, v, a: _attrs(a, codes, dyn))
+        except TypeError:
+            pass
+    return codes, dyn
 
 
 def coq_case(case):
